@@ -37,7 +37,8 @@ R.shape(
     _sections="list[ref SectionOutput]",
     _terminal="ref Terminal",
 )
-R.shape("Input", external=True, g_interactive="bool")
+R.shape("InputStream", external=True)
+R.shape("Input", _stream="ref InputStream", _interactive="bool")
 R.shape("IO", _input="ref Input", _output="ref Output", _error_output="ref Output", _terminal_dimensions="any")
 R.shape("Indent", _outputs="list[ref Output]", _original_indents="list[int]")
 
